@@ -101,9 +101,12 @@ type Exec struct {
 	obNames    map[ssa.Instruction]string
 	varRefs    map[*ssa.Function]map[string][]debugRef
 	covers     map[string]bool
+	coverN     map[string]int
 	retCount   int
 	noDecreases []string
 	iterMaps    map[*Cell]Value
+	named       map[string]*Term
+	specLive    *State
 }
 
 type debugRef struct {
@@ -207,10 +210,10 @@ func (ex *Exec) cover(st *State, label string) {
 	if ex.quiet > 0 {
 		return
 	}
-	if ex.covers[label] {
+	if ex.coverN[label] >= 6 {
 		return
 	}
-	ex.covers[label] = true
+	ex.coverN[label]++
 	ob := &Obligation{Name: fmt.Sprintf("%s/cover#%s", ex.fnKey, label), Func: ex.fnKey, Kind: "cover", Label: label, Goal: tFalse, Expect: "sat",
 		Hyps: append([]*Term(nil), st.PC...), Trace: append([]string(nil), st.Trace...)}
 	ex.obls = append(ex.obls, ob)
